@@ -1,7 +1,7 @@
 PROP = dict(
     cover_pkgs=["pdu"],
     gen=["layouts"],
-    proof_files=["Properties/C02.v", "Proofs/PduSpecProofs.v", "Spec/Smpp5.v", "Proofs/PduRoundtripProofs.v"],
+    proof_files=["Properties/C02.v", "Proofs/PduSpecProofs.v", "Proofs/PduConverseProofs.v", "Spec/Smpp5.v", "Proofs/PduRoundtripProofs.v"],
     model_files=["Model/Pdu.v", "Model/PduRun.v", "Spec/Smpp5.v", "Proofs/PduSpecProofs.v"],
     trusted=["coq/Spec/Smpp5.v: hand transcription of the SMPP v5.0 syntax tables 4-1..4-41 (each entry cites its table) and of the parameter encodings of section 3.1",
              "Gen/PduLayouts.v: registry dump incl. field_names (Go field name -> specification parameter name dictionary in harness/gen_names.go; unknown names are wildcards)",
